@@ -83,6 +83,7 @@ struct Sched {
   std::vector<std::string> names;   // name loaded by thread i
   std::vector<int> actions;         // +(i+1) = start thread i, -(j+1) = release thread j
   std::vector<int> tail;            // repeat loads afterwards (thread indices whose names are loaded again)
+  int hist_failed = 0, hist_valid = 0;  // "the life of the process": distinct names loaded (failing / valid) before the schedule starts
 };
 static std::string sched_text(const Sched& s) {
   std::string t = "names=";
@@ -91,6 +92,7 @@ static std::string sched_text(const Sched& s) {
   for (int a : s.actions) t += (a > 0 ? "S" + std::to_string(a - 1) : "R" + std::to_string(-a - 1)) + " ";
   t += "tail=";
   for (int x : s.tail) t += std::to_string(x) + ",";
+  if (s.hist_failed || s.hist_valid) t += " history=" + std::to_string(s.hist_failed) + " failing + " + std::to_string(s.hist_valid) + " valid names";
   return t;
 }
 static char task_state(pid_t tid) {
@@ -151,6 +153,10 @@ static std::string run_schedule(const Sched& sc, const std::string& valid_bytes)
     tl_loading.clear();
     { std::lock_guard<std::mutex> l(S->m); S->finished[i] = true; }
   };
+  // earlier life of the process: many distinct names already went through the loader (controlling thread, no parking)
+  auto plain_load = [&](const std::string& name) { tl_loading = name; cctz::time_zone tz; cctz::load_time_zone(name, &tz); tl_loading.clear(); };
+  for (int i = 0; i < sc.hist_failed; ++i) plain_load((i % 3 ? "c20/missing/h" : "c20/garbage/h") + std::to_string(i));
+  for (int i = 0; i < sc.hist_valid; ++i) plain_load("c20/valid/h" + std::to_string(i));
   for (int a : sc.actions) {
     if (a > 0) {
       const int i = a - 1;
@@ -181,11 +187,15 @@ static std::string run_schedule(const Sched& sc, const std::string& valid_bytes)
     auto again = [&]() { tl_loading = name; cctz::time_zone tz; cctz::load_time_zone(name, &tz); tl_loading.clear(); };
     if (n % 2) { std::thread t(again); t.join(); } else again();
   }
+  // ... and names from that earlier life are asked for again (first, last, every 61st)
+  for (int i = 0; i < sc.hist_failed; ++i) if (i == 0 || i == sc.hist_failed - 1 || i % 61 == 0) plain_load((i % 3 ? "c20/missing/h" : "c20/garbage/h") + std::to_string(i));
+  for (int i = 0; i < sc.hist_valid; ++i) if (i == 0 || i == sc.hist_valid - 1 || i % 61 == 0) plain_load("c20/valid/h" + std::to_string(i));
   std::string problems;
   {
     std::lock_guard<std::mutex> l(S->m);
     for (auto& p : S->problems) problems += p + "; ";
-    for (auto& c : S->calls) if (c.second > 1) problems += "factory invoked " + std::to_string(c.second) + " times for '" + c.first + "'; ";
+    int shown = 0;
+    for (auto& c : S->calls) if (c.second > 1 && shown++ < 5) problems += "factory invoked " + std::to_string(c.second) + " times for '" + c.first + "'; ";
   }
   // all loaders of one name hold equal zones and equal success flags (belongs to the once-per-name story)
   for (int i = 0; i < k; ++i) for (int j = i + 1; j < k; ++j)
@@ -202,7 +212,7 @@ static std::string run_in_child(const Sched& sc, const std::string& valid_bytes)
   pid_t pid = fork();
   if (pid == 0) {
     close(fd[0]);
-    alarm(30);
+    alarm(60);
     std::string r = run_schedule(sc, valid_bytes);
     (void)!write(fd[1], r.data(), r.size());
     _exit(0);
@@ -251,6 +261,7 @@ static bool replay(const vf::Case& c, std::string* why) {
   while (a >> tok) sc.actions.push_back(tok[0] == 'S' ? atoi(tok.c_str() + 1) + 1 : -(atoi(tok.c_str() + 1) + 1));
   std::istringstream t(c.get("tail"));
   while (std::getline(t, tok, ',')) if (!tok.empty()) sc.tail.push_back(atoi(tok.c_str()));
+  sc.hist_failed = (int)c.num("history_failed_names"); sc.hist_valid = (int)c.num("history_valid_names");
   std::string r = run_in_child(sc, vf::unhex(c.get("valid_hex")));
   if (r.compare(0, 9, "VIOLATION") == 0) { *why = r; return false; }
   return true;
@@ -260,7 +271,8 @@ static void run(const vf::Args& a, vf::Evidence& ev, vf::Reporter& rep) {
   ev.rule = "exhaustive: for k = 1..3 (quick) / 1..4 (thorough) loader threads, every order of {start thread i, release thread j} "
             "(a thread can only be released after it was started; each is parked inside the factory) x every partition of the "
             "threads into same-name groups x name kinds (valid data, missing, garbage, fixed-offset incl. +-24h, UTC, fixed-offset look-alikes that are not fixed names), each schedule in a "
-            "forked child, followed by repeat loads on the controlling thread and on fresh threads; quick additionally samples "
+            "forked child, followed by repeat loads on the controlling thread and on fresh threads; the two-thread schedules are also run "
+            "late in the life of a process (after 300-9000 distinct failing/valid names were loaded, a sample of which is asked for again); quick additionally samples "
             "k = 4 schedules with rapidcheck. Observed in the factory: calling thread is inside load_time_zone of that name, "
             "invocations per name, in-flight count, calls for internally resolved names. Non-trivial = >= 2 threads had started a "
             "first load of the same name before the first one was released (observed), distinct by (names, order).";
@@ -283,6 +295,24 @@ static void run(const vf::Args& a, vf::Evidence& ev, vf::Reporter& rep) {
           all.push_back(s);
         }
   }
+  // long-lived processes: the same two-thread schedules after hundreds to thousands of names have been loaded
+  {
+    std::vector<std::vector<int>> orders, parts;
+    std::vector<int> cur, st(2, 0), lab;
+    gen_orders(2, cur, st, &orders); gen_partitions(2, lab, 0, &parts);
+    const int hist[][2] = {{600, 0}, {0, 300}, {1100, 40}, {4200, 10}, {9000, 0}, {300, 300}};
+    size_t n = 0;
+    for (auto& h : hist)
+      for (auto& p : parts)
+        for (int kindsel : {0, 2, 3}) {
+          Sched s2;
+          for (int i = 0; i < 2; ++i) s2.names.push_back(name_for(p[i], kindsel));
+          s2.actions = orders[n++ % orders.size()];
+          s2.tail = {0, 1, 0};
+          s2.hist_failed = h[0]; s2.hist_valid = h[1];
+          all.push_back(s2);
+        }
+  }
   if (a.shard == 0) ev.extra["schedules_in_the_enumeration"] = std::to_string(all.size());
   uint64_t blocked = 0, unrealised = 0;
   auto exec = [&](const Sched& s, bool from_rc) -> bool {
@@ -291,6 +321,7 @@ static void run(const vf::Args& a, vf::Evidence& ev, vf::Reporter& rep) {
       std::string act; for (int v : s.actions) act += (v > 0 ? "S" + std::to_string(v - 1) : "R" + std::to_string(-v - 1)) + " "; c.set("actions", act);
       std::string tl; for (int v : s.tail) tl += std::to_string(v) + ","; c.set("tail", tl);
       c.set("valid_hex", vf::hex(g_valid));
+      c.set("history_failed_names", s.hist_failed); c.set("history_valid_names", s.hist_valid);
     }
     const std::string r = run_in_child(s, g_valid);
     ev.eval();
@@ -300,6 +331,7 @@ static void run(const vf::Args& a, vf::Evidence& ev, vf::Reporter& rep) {
     blocked += bs; unrealised += nr;
     if (ov) { ev.nt(vf::fnv(sched_text(s))); ev.cls("overlapping_first_loads_of_one_name"); }
     if (nr) ev.cls("schedule_not_fully_realised(loader_blocked_or_not_parked)");
+    if (s.hist_failed + s.hist_valid) ev.cls(s.hist_failed + s.hist_valid >= 4000 ? "schedule_after_history_of_4000+_names" : "schedule_after_history_of_300-1200_names");
     ev.cls("threads_" + std::to_string(s.names.size()));
     if (ev.want_sample("k" + std::to_string(s.names.size()))) ev.sample("k" + std::to_string(s.names.size()), sched_text(s) + " -> " + r);
     if (r.compare(0, 9, "VIOLATION") == 0 || r.compare(0, 7, "HARNESS") == 0) {
@@ -319,7 +351,7 @@ static void run(const vf::Args& a, vf::Evidence& ev, vf::Reporter& rep) {
     // sampled k = 4 schedules
     std::vector<std::vector<int>> orders, parts;
     { std::vector<int> cur, st(4, 0), lab; gen_orders(4, cur, st, &orders); gen_partitions(4, lab, 0, &parts); }
-    vf::rc_run("C20.k4_sample", a.stream_seed(1), (int)a.budget(60, 200), rep, [&]() {
+    vf::rc_run("C20.k4_sample", a.stream_seed(1), (int)a.budget(150, 300), rep, [&]() {
       Sched s;
       const auto& p = parts[*vf::index(parts.size())];
       const int kindsel = *vf::range<int>(0, 7);
@@ -327,6 +359,7 @@ static void run(const vf::Args& a, vf::Evidence& ev, vf::Reporter& rep) {
       s.actions = orders[*vf::index(orders.size())];
       int nt = *vf::range<int>(0, 6);
       for (int i = 0; i < nt; ++i) s.tail.push_back(*vf::range<int>(0, 3));
+      if (*vf::range<int>(0, 7) == 0) { s.hist_failed = *rc::gen::element(0, 100, 700, 5000); s.hist_valid = *rc::gen::element(0, 0, 20, 200); }
       if (!exec(s, true)) RC_FAIL("schedule violates the factory contract");
     });
   }
